@@ -16,6 +16,11 @@ Sub-checks
               with changes made through public setters and in-place methods; every answer vs. the enumeration for the
               objects' content at the time of the request (no stale or remembered results).
   util        ``rprob_filial``, ``cov_D1s``, ``cov_D2s``, ``cov_D1st``, ``cov_D2st`` vs. enumerated pedigrees.
+  longchrom   a chromosome of 200-600 markers (optionally flanked by short ones); the number of heterozygous markers of a
+              dihybrid parent / of markers at which two inbred parents differ inside ONE memory chunk is forced to values
+              at and around multiples of 128 and 256 (the ranges of 8-bit counters).  Every parent tuple vs. the pairwise
+              closed form  4 * sum_ij u_i Cov(x_i, x_j) u_j  whose Cov(x_i, x_j) come from the two-locus enumeration
+              (one enumeration per distinct map distance; positions on a 2^-8 Morgan grid), and ``mem`` invariance.
 """
 import itertools
 import math
@@ -82,6 +87,10 @@ ASSUMPTIONS = [
     "(reorder_taxa, sort_taxa, group_taxa, remove_taxa) or writes into the arrays these objects expose are changes of "
     "the input ('for all sets of parents and marker effects ... all matrix classes and their factories')",
     "comparison tolerance 1e-11 * S + 1e-300 with S = 4 * (sum_i |u_i^a|) * (sum_i |u_i^b|), the sum of absolute values of all terms",
+    "longchrom: chromosomes of 200-600 markers are ordinary inputs (real marker panels carry thousands per chromosome); a "
+    "'memory chunk' is a run of `mem` consecutive markers counted from the start of a chromosome (the whole chromosome for "
+    "mem=None) -- used only to place heterozygous / differing markers, nothing is asserted about chunks; the exact value is "
+    "4 * sum_ij u_i Cov(x_i,x_j) u_j' (variance of a sum), each Cov(x_i,x_j) from the two-locus enumeration at r_ij",
 ]
 
 SCHEMES = ("two", "three", "four", "dihybrid")
@@ -288,6 +297,48 @@ def util_case(draw):
             "neg": draw(st.integers(-5, -1)), "shape2d": draw(st.booleans())}
 
 
+# ---- long chromosomes: counts of heterozygous / differing markers inside one memory chunk at 8-bit counter boundaries ----
+_LONG_COUNTS = (127, 128, 129, 255, 256, 257, 383, 384, 385, 511, 512, 513)
+_LONG_NMAX = {"two": 4, "three": 3, "four": 3, "dihybrid": 3}
+_LONG_GRID = 256                   # genetic positions are integer multiples of 1/256 Morgan (exact in binary floating point)
+
+
+@st.composite
+def longchrom_case(draw):
+    """only sizes, counts and ONE integer seed are drawn; check_longchrom expands them deterministically (a case holds
+    up to 6 x 600 alleles -- far beyond what Hypothesis can draw element by element)"""
+    scheme = draw(st.sampled_from(["dihybrid", "dihybrid", "two", "three", "four"]))
+    p_long = draw(st.one_of(st.integers(200, 600), st.sampled_from([256, 257, 300, 512, 513, 600])))
+    mem = draw(st.sampled_from([None, 1024, 1024, 1024, 128, 256, 300, 512]))
+    width = p_long if mem is None else min(mem, p_long)                # markers per chunk of the long chromosome
+    counts = [c for c in _LONG_COUNTS if c <= width]
+    exact = [c for c in counts if c % 256 == 0] or [c for c in counts if c % 128 == 0]
+    n = draw(st.integers(2, _LONG_NMAX[scheme]))
+    taxa = []
+    for i in range(n):
+        how = draw(st.sampled_from(["count", "count", "count", "random", "inbred_or_copy"])) if i > 0 else "count"
+        taxa.append({
+            "how": how,
+            # number of heterozygous markers (dihybrid) / markers differing from the base parent (inbred schemes) in the chunk
+            "count": draw(st.sampled_from(exact)) if draw(st.booleans()) else draw(st.sampled_from(counts)),
+            "outside": draw(st.sampled_from(["same", "same", "random"])),      # the rest of the genome
+            "base": draw(st.integers(0, 5)),
+        })
+    kind = draw(st.sampled_from(["vmat", "vmat", "pcvmat"]))
+    return {
+        "scheme": scheme, "kind": kind, "entry": draw(st.sampled_from(["algmod", "algmod", "gmod"])),
+        "p_long": p_long, "p_before": draw(st.sampled_from([0, 0, 1, 3, 6])), "p_after": draw(st.sampled_from([0, 0, 2, 5])),
+        "mem": mem, "mem2": draw(st.sampled_from([100, 100, 97, 255, 256, 64, None])),
+        "chunk": draw(st.integers(0, 4)), "taxa": taxa,
+        "nself": draw(st.sampled_from([0, 0, 1, 2, 3, "inf"])),
+        "ntrait": draw(st.integers(1, 2)), "effects": draw(st.sampled_from(["dense", "dense", "sparse", "small_integers"])),
+        "genpos_order": draw(st.sampled_from(["ascending", "ascending", "ascending", "descending", "shuffled"])),
+        "nmating": draw(st.integers(1, 3)), "nprogeny": draw(st.integers(1, 80)),
+        "taxa_named": draw(st.booleans()), "trait_named": draw(st.booleans()),
+        "seed": draw(st.integers(0, 2 ** 31 - 1)),
+    }
+
+
 # ---- histories: the same factory / model / genotype objects used again after being changed through their public API ----
 _VIAS_FCTY = ["fcty_gmod_plain", "fcty_gmod_plain", "fcty_gmod_plain", "fcty_gmod_mem", "fcty_algmod", "fcty_algmod",
               "cls_gmod", "cls_algmod", "uc", "uc"]
@@ -370,7 +421,7 @@ class Built:
     pass
 
 
-def build(case, perm=None):
+def build(case, perm=None, rmat=True):
     b = Built()
     n = case["n"]
     geno = numpy.array([case["geno0"], case["geno1"]], dtype="int8")           # (2,n,p)
@@ -403,7 +454,7 @@ def build(case, perm=None):
                                           trait=trait)
     b.geno, b.chrgrp, b.genpos, b.u, b.t, b.n, b.p = geno, chrgrp, genpos, u, t, n, p
     b.taxa, b.taxa_grp, b.trait, b.pgmat, b.algmod = taxa, taxa_grp, trait, pg, alg
-    b.rmat = P.rmat_from_genpos(chrgrp, genpos)
+    b.rmat = P.rmat_from_genpos(chrgrp, genpos) if rmat else None             # O(p^2) python loop
     b.S = 4.0 * numpy.outer(numpy.abs(u).sum(0), numpy.abs(u).sum(0))          # (t,t) sum of |terms|
     return b
 
@@ -1041,6 +1092,216 @@ def check_reuse(case, ctx):
 
 
 # =====================================================================================================================
+# longchrom: hundreds of markers on one chromosome; chunk-wise counts at the boundaries of 8-bit counters
+# =====================================================================================================================
+def _expand_long(case):
+    """the population dict of ``build`` from a longchrom case (deterministic: numpy generator seeded from the case);
+    also returns the genetic positions in grid units and the index window of the targeted memory chunk"""
+    rng = numpy.random.default_rng(int(case["seed"]))
+    scheme = case["scheme"]
+    pl, pb, pa = int(case["p_long"]), int(case["p_before"]), int(case["p_after"])
+    runs = [r for r in (pb, pl, pa) if r > 0]
+    p = sum(runs)
+    units = []
+    for rl in runs:
+        start = int(rng.integers(0, 64))
+        inc = rng.choice([0, 1, 1, 1, 2, 2, 3], size=rl)
+        inc[0] = 0
+        units.extend((start + numpy.cumsum(inc)).tolist())
+    mem = case["mem"]
+    width = pl if mem is None else min(int(mem), pl)
+    q = int(case["chunk"]) % (pl // width)                              # a full chunk of the long chromosome
+    w0 = pb + q * width
+    window = numpy.arange(w0, w0 + width)
+    outside = numpy.setdiff1d(numpy.arange(p), window)
+    n = len(case["taxa"])
+    h0 = rng.integers(0, 2, (n, p))
+    h1 = h0.copy()
+    for i, spec in enumerate(case["taxa"]):
+        c = min(int(spec["count"]), width)
+        pos = window[rng.permutation(width)[:c]]
+        how = spec["how"]
+        if scheme == "dihybrid":
+            if how == "random":
+                h1[i] = rng.integers(0, 2, p)
+            elif how == "count":
+                h1[i, pos] = 1 - h0[i, pos]                           # exactly c heterozygous markers in the chunk
+                if spec["outside"] == "random":
+                    h1[i, outside] = rng.integers(0, 2, len(outside))
+            # inbred_or_copy: homozygous parent
+        else:
+            if i > 0 and how != "random":
+                base = int(spec["base"]) % i
+                h0[i] = h0[base]
+                if how == "count":
+                    h0[i, pos] = 1 - h0[base, pos]                    # differs from the base parent at exactly c markers of the chunk
+                    if spec["outside"] == "random":
+                        h0[i, outside] = rng.integers(0, 2, len(outside))
+            h1[i] = h0[i]
+    t = int(case["ntrait"])
+    if case["effects"] == "dense":
+        u = rng.normal(size=(p, t))
+    elif case["effects"] == "small_integers":
+        u = rng.integers(-3, 4, (p, t)).astype(float)
+    else:
+        u = numpy.zeros((p, t))
+        k = int(rng.integers(6, 40))
+        ix = numpy.concatenate([rng.choice(window, size=min(k, width), replace=False), rng.choice(p, size=3)])
+        u[ix] = rng.normal(size=(len(ix), t))
+    pop = {
+        "scheme": scheme, "n": n, "runs": runs, "chr_labels": [3, 7, 12][:len(runs)],
+        "genpos": [x / float(_LONG_GRID) for x in units],
+        "geno0": h0.tolist(), "geno1": h1.tolist(), "u": u.tolist(), "beta": [1.5] * t,
+        "taxa_named": bool(case["taxa_named"]), "grouped_taxa": False, "trait_named": bool(case["trait_named"]),
+        "u_unit_exp": 0, "genpos_order": case["genpos_order"], "genpos_seed": int(case["seed"]) % 65536,
+    }
+    return pop, (w0, w0 + width)
+
+
+def _chunk_counts(scheme, geno, runs, mem):
+    """numbers of heterozygous markers of one parent (dihybrid) / of markers at which two parents differ (inbred
+    schemes), per memory chunk of every chromosome -- the quantities the case construction controls"""
+    out = []
+    n = geno.shape[1]
+    st_ = 0
+    for rl in runs:
+        step = rl if mem is None else int(mem)
+        for a in range(st_, st_ + rl, step):
+            sl = slice(a, min(a + step, st_ + rl))
+            if scheme == "dihybrid":
+                out.extend(int((geno[0, i, sl] != geno[1, i, sl]).sum()) for i in range(n))
+            else:
+                out.extend(int((geno[0, i, sl] != geno[0, j, sl]).sum()) for i in range(n) for j in range(i))
+        st_ += rl
+    return out
+
+
+def _pairwise_terms(scheme, haps, u, chrgrp, units, nself):
+    """K[a, b, x, y] (t,t) = sum_ij  haps[x,i] u_i  J_ab(r_ij)  haps[y,j] u_j'   for all founder slots a, b and all pairs
+    of distinct haplotypes x, y of the population.  J(r) is the two-locus enumeration of the scheme
+    (``pedigree2.origin_joint``), evaluated once per distinct map distance (positions are grid multiples, so the
+    distances are exact small integers)."""
+    L = P.SCHEME_NSLOT[scheme]
+    units = numpy.asarray(units, dtype="int64")
+    d = numpy.abs(units[:, None] - units[None, :])
+    d[chrgrp[:, None] != chrgrp[None, :]] = -1                          # different chromosomes: r = 1/2 exactly
+    vals, inv = numpy.unique(d, return_inverse=True)
+    inv = inv.reshape(d.shape)
+    J = numpy.stack([P.origin_joint(scheme, 0.5 if v < 0 else P.haldane(float(v) / _LONG_GRID), nself) for v in vals.tolist()])
+    hu = haps[:, :, None] * u[None, :, :]                               # (nh,p,t)
+    nh, t = haps.shape[0], u.shape[1]
+    K = numpy.empty((L, L, nh, nh, t, t))
+    for a in range(L):
+        for b_ in range(L):
+            Jab = J[:, a, b_][inv]                                      # (p,p)
+            K[a, b_] = numpy.einsum("xit,ij,yjs->xyts", hu, Jab, hu, optimize=True)
+    return K
+
+
+def _long_ref(scheme, K, hu_sum, tup, hid):
+    """(t,t) progeny covariance of one parent tuple from the pairwise terms: 4 * (E[g g'] - E[g] E[g]')"""
+    if scheme == "dihybrid":
+        f, m = tup
+        sl = [hid[(0, f)], hid[(1, f)], hid[(0, m)], hid[(1, m)]]
+    else:
+        sl = [hid[(0, i)] for i in tup]
+    L = len(sl)
+    pi = P.origin_marginal(scheme)
+    egg = sum(K[a, b_, sl[a], sl[b_]] for a in range(L) for b_ in range(L))
+    eg = sum(pi[a] * hu_sum[sl[a]] for a in range(L))
+    return 4.0 * (egg - numpy.outer(eg, eg))
+
+
+def check_longchrom(case, ctx):
+    scheme, kind, entry = case["scheme"], case["kind"], case["entry"]
+    nself = _inf(case["nself"])
+    pop, (w0, w1) = _expand_long(case)
+    b = build(pop, rmat=False)
+    k = NPARENT[scheme]
+    mem, mem2 = case["mem"], case["mem2"]
+    ctx.label("scheme=%s" % scheme)
+    ctx.label("kind=%s" % kind)
+    ctx.label("nself=inf", case["nself"] == "inf")
+    ctx.label("nself>0", case["nself"] != 0)
+    ctx.label("multi_chromosome", len(pop["runs"]) > 1)
+    ctx.label("chunk_boundary_inside_chromosome", mem is not None and mem < case["p_long"])
+    ctx.label("effects=%s" % case["effects"])
+    counts = [c for c in _chunk_counts(scheme, b.geno, pop["runs"], mem) if c > 0]
+    what = "het" if scheme == "dihybrid" else "diff"
+    ctx.label("%s_count_in_chunk_multiple_of_256" % what, any(c % 256 == 0 for c in counts))
+    ctx.label("%s_count_in_chunk_odd_multiple_of_128" % what, any(c % 256 == 128 for c in counts))
+    ctx.label("%s_count_in_chunk_multiple_of_256_plus_minus_1" % what, any(c % 256 in (1, 255) and c > 1 for c in counts))
+    ctx.label("%s_count_in_chunk_>=512" % what, any(c >= 512 for c in counts))
+    snap_g, snap_u = b.pgmat.mat.copy(), b.algmod.u_a.copy()
+
+    try:
+        cls, obj = call_genetic(scheme, kind, entry, b, case["nmating"], case["nprogeny"], nself, mem)
+    except (IndexError, ValueError) as e:
+        ctx.fail("long.construct.raises", "%s.%s raised %r" % (kind, scheme, e))
+        return
+    shape = (b.n,) * k + ((b.t, b.t) if kind == "pcvmat" else (b.t,))
+    ctx.check(type(obj) is cls and obj.mat.shape == shape, "long.result.shape",
+              lambda: "%s %s, expected %s %s" % (type(obj).__name__, obj.mat.shape, cls.__name__, shape))
+    if obj.mat.shape != shape:
+        return
+
+    # ---- distinct haplotypes of the population and their pairwise terms ----------------------------------------------
+    phases = (0, 1) if scheme == "dihybrid" else (0,)
+    hid, rows = {}, []
+    for i in range(b.n):
+        for ph in phases:
+            row = b.geno[ph, i].astype(float)
+            for x, r_ in enumerate(rows):
+                if numpy.array_equal(r_, row):
+                    hid[(ph, i)] = x
+                    break
+            else:
+                hid[(ph, i)] = len(rows)
+                rows.append(row)
+    haps = numpy.array(rows)
+    units = numpy.rint(b.genpos * _LONG_GRID).astype("int64")           # positions as build() laid them out (any order)
+    ctx.check(bool((units / float(_LONG_GRID) == b.genpos).all()), "oracle.positions_on_grid")
+    K = _pairwise_terms(scheme, haps, b.u, b.chrgrp, units, nself)
+    hu_sum = haps @ b.u                                                  # (nh,t)
+
+    # the pairwise evaluation itself, on a handful of loci, against the reference enumeration used by the other sub-checks
+    sub = numpy.sort(numpy.random.default_rng(int(case["seed"]) + 1).choice(b.p, size=min(6, b.p), replace=False))
+    Ks = _pairwise_terms(scheme, haps[:, sub], b.u[sub], b.chrgrp[sub], units[sub], nself)
+    tup0 = tuple(range(b.n))[:k] if b.n >= k else tuple([0, 1] * k)[:k]
+    ref_s = P.progeny_cov(scheme, P.scheme_slots(scheme, b.geno[:, :, sub], tup0), b.u[sub],
+                          P.rmat_from_genpos(b.chrgrp[sub], b.genpos[sub]), nself)
+    got_s = _long_ref(scheme, Ks, haps[:, sub] @ b.u[sub], tup0, hid)
+    Ss = 4.0 * numpy.outer(numpy.abs(b.u[sub]).sum(0), numpy.abs(b.u[sub]).sum(0))
+    ctx.check(bool((numpy.abs(got_s - ref_s) <= 1e-12 * Ss + ATOL).all()), "oracle.pairwise_equals_enumeration",
+              lambda: "%s vs %s" % (got_s.tolist(), ref_s.tolist()))
+
+    # ---- every parent tuple ---------------------------------------------------------------------------------------------
+    nontriv = False
+    for tup in itertools.product(range(b.n), repeat=k):
+        ref = _long_ref(scheme, K, hu_sum, tup, hid)
+        got = _entry(obj.mat, tup, kind, b.t)
+        ctx.check(_cmp(got, ref, b.S, kind), "long.value",
+                  lambda: "%s%s nself=%s mem=%s, %d markers (chunk %d..%d): got %s, pairwise enumeration %s" % (
+                      scheme, list(tup), case["nself"], mem, b.p, w0, w1, got.tolist(), ref.tolist()))
+        nontriv = nontriv or _has_variance(ref, b.S)
+    ctx.nontrivial(nontriv)
+
+    # ---- symmetry in the last two (exchangeable) parents, traits --------------------------------------------------------
+    m = obj.mat
+    tolS = RTOL * (b.S if kind == "pcvmat" else numpy.diag(b.S)) + ATOL
+    ctx.check(bool((numpy.abs(m - numpy.swapaxes(m, k - 2, k - 1)) <= tolS).all()), "long.symmetry.female_male")
+    if kind == "pcvmat":
+        ctx.check(bool((numpy.abs(m - numpy.swapaxes(m, -1, -2)) <= tolS).all()), "long.symmetry.traits")
+
+    # ---- memory chunking must not matter --------------------------------------------------------------------------------
+    if mem2 != mem:
+        _, obj2 = call_genetic(scheme, kind, "algmod", b, case["nmating"], case["nprogeny"], nself, mem2)
+        ctx.check(bool((numpy.abs(obj2.mat - m) <= tolS).all()), "long.mem.invariance",
+                  lambda: "mem=%s vs mem=%s: max |diff| %g" % (mem, mem2, numpy.abs(obj2.mat - m).max()))
+    ctx.check(numpy.array_equal(b.pgmat.mat, snap_g) and numpy.array_equal(b.algmod.u_a, snap_u), "long.inputs_mutated")
+
+
+# =====================================================================================================================
 # util: linkage-decay terms
 # =====================================================================================================================
 def check_util(case, ctx):
@@ -1128,4 +1389,12 @@ SUBCHECKS = [
     SubCheck("util", check_util, util_case(), quick=500, thorough=5000, shards_quick=1,
              rule="linkage-decay helpers on scalar/array r, all depths; non-trivial = some 0 < r < 1/2",
              required_labels=("nself=inf", "intermating")),
+    SubCheck("longchrom", check_longchrom, longchrom_case(), quick=25, thorough=100, shards_quick=6,
+             rule="one chromosome of 200-600 markers (+ optional short ones), 2-4 taxa, positions on a 1/256 Morgan grid; the "
+                  "number of heterozygous markers of a dihybrid parent / of markers at which two inbred parents differ inside "
+                  "one memory chunk is set to 127..513 (at and next to multiples of 128/256); vmat|pcvmat of all four "
+                  "schemes, ALL parent tuples vs. the pairwise closed form built from two-locus enumerations, symmetry, mem "
+                  "invariance; non-trivial = some tuple has variance",
+             required_labels=("het_count_in_chunk_multiple_of_256", "diff_count_in_chunk_multiple_of_256", "kind=pcvmat",
+                              "scheme=two", "scheme=three", "scheme=four")),
 ]
